@@ -59,14 +59,19 @@ def dumpChart (c : Chart) : String :=
 open Chartparse.Py in
 def showPy : M Val → String
   | .ok (.int n) => s!"int {n}" | .ok (.flt x) => s!"flt {showRat x}" | .ok (.bool b) => s!"bool {b}"
-  | .ok (.td us) => s!"td {us}" | .ok .none => "none" | .ok (.enum n) => s!"enum {n}" | .ok (.obj _) => "obj" | .ok (.ints _) => "ints" | .error e => showErr e
+  | .ok (.td us) => s!"td {us}" | .ok .none => "none" | .ok (.enum n) => s!"enum {n}" | .ok (.obj _) => "obj" | .ok (.ints _) => "ints"
+  | .ok (.flts _) => "flts" | .ok (.tds _) => "tds"
+  | .ok (.pair a b) => s!"pair ({showPy (.ok a)}) ({showPy (.ok b)})"
+  | .error e => showErr e
 
 open Chartparse.Py in
 def parsePyVal (s : String) : Val :=
   match s.splitOn ":" with
   | ["i", n] => .int n.toInt! | ["f", x] => .flt (parseRat x) | ["t", n] => .td n.toInt!
   | ["b", v] => .bool (v == "1") | ["o", bits] => .obj (bits.toList.map (· == '1'))
-  | ["l", xs] => .ints (if xs == "-" then [] else (xs.splitOn ";").map String.toInt!) | _ => .none
+  | ["l", xs] => .ints (if xs == "-" then [] else (xs.splitOn ";").map String.toInt!)
+  | ["lf", xs] => .flts (if xs == "-" then [] else (xs.splitOn ";").map parseRat)
+  | ["lt", xs] => .tds (if xs == "-" then [] else (xs.splitOn ";").map String.toInt!) | _ => .none
 
 /-- prefix-notation expression: `int n` | `var x` | `bin op a b` | `cmp op a b` | `round a` | `roundN n a` | `intOf a` | `cast a` |
     `abs a` | `tsec a` | `tdus a`; returns the expression and the unread tokens -/
@@ -90,6 +95,13 @@ partial def parsePyExpr : List String → Option (Chartparse.Py.Expr × List Str
   | "abs" :: r => (parsePyExpr r).map fun (a, r1) => (.abs a, r1)
   | "tsec" :: r => (parsePyExpr r).map fun (a, r1) => (.totalSeconds a, r1)
   | "tdus" :: r => (parsePyExpr r).map fun (a, r1) => (.tdMicros a, r1)
+  | "tdsec" :: r => (parsePyExpr r).map fun (a, r1) => (.tdSeconds a, r1)
+  | "isfloat" :: r => (parsePyExpr r).map fun (a, r1) => (.isFloat a, r1)
+  | "istd" :: r => (parsePyExpr r).map fun (a, r1) => (.isTd a, r1)
+  | "pair" :: r =>
+    match parsePyExpr r with
+    | some (a, r1) => match parsePyExpr r1 with | some (b, r2) => some (.pair a b, r2) | none => none
+    | none => none
   | _ => none
 
 open Chartparse.Py Chartparse.Gen.Leaf in
@@ -110,6 +122,11 @@ def runLeaf (name : String) (args : List String) : String :=
     showPy (evalBody ([("tick", tick), ("is_tap", tap), ("is_forced", forced), ("note", note), ("note.is_chord()", chord),
         ("chartparse.tick.note_duration_to_ticks(resolution, NoteDuration.EIGHTH_TRIPLET)", thr), ("previous", prev)] ++
         (if prev == .none then [] else [("previous.tick", ptick), ("previous.note", pnote)])) computeHopoState)
+  | "between", [a, b] => showPy (evalBody [("a", a), ("b", b)] tickBetween)
+  | "timeadd", [ts, o] => showPy (evalBody [("ts", ts), ("other", o)] timeAdd)
+  | "tsat", [res, tick, start, ticks, bpms, stamps] =>
+    showPy (evalBodyC timestampAtTickCalls [("tick", tick), ("start_iteration_index", start), ("self.resolution", res),
+      ("self.events[].tick", ticks), ("self.events[].bpm", bpms), ("self.events[].timestamp", stamps)] timestampAtTick)
   | _, _ => "bad-leaf"
 
 def parseWant (s : String) : Option (List (Nat × Nat)) :=
